@@ -216,3 +216,138 @@ def unit(kind, file, struct):
 
 
 UNITS = [unit("atomic", "src/multi/channels/ogre_arc/atomic.rs", "Atomic"), unit("full_sync", "src/multi/channels/ogre_arc/full_sync.rs", "FullSync")]
+
+
+# ------------------------------------------------------------------------------------------------------------------------------------
+# multi_arc_{atomic,full_sync,crossbeam}: the glue of the three Arc-based Multi channels around `send_derived` (contract: units fanout_arc_*).
+# These channels always accept (Arc::new cannot fail) and WAIT while a listener queue is full (documented upstream, excluded from C16):
+# `send_derived`'s precondition 'every live listener queue has room' is the S-model's way of saying that the wait is over.
+# ------------------------------------------------------------------------------------------------------------------------------------
+SPEC_ARC = r"""
+pub enum RetryResult<I> { Ok { reported_input: (), output: () }, Transient { input: I, error: () }, Fatal { input: I, error: () } }
+pub struct Setter { pub value: Ghost<u64>, pub id: Ghost<int> }
+impl Setter {
+    /// the MaybeUninit slot + setter call: the setter is CONSUMED (invoked once) and leaves its value
+    #[verifier::external_body]
+    pub fn apply(self) -> (r: u64) ensures r == self.value@ { unimplemented!() }
+}
+/// `Arc<ItemType>`: the payload it shares
+pub struct ArcItem { pub value: u64 }
+pub fn arc_new(item: u64) -> (r: ArcItem) ensures r.value == item { ArcItem { value: item } }
+pub enum TryRecvError { Empty, Disconnected }
+
+pub struct Chan<const BUFFER_SIZE: usize, const MAX_STREAMS: usize> {
+    pub live: Ghost<Set<int>>,
+    pub queues: Ghost<Seq<Seq<u64>>>,
+    pub eff: Ghost<Seq<nat>>,
+    pub cancels: Ghost<Seq<int>>,
+    pub queues_resume: Ghost<Seq<Seq<u64>>>,
+    pub suspensions: Ghost<nat>,
+}
+impl<const BUFFER_SIZE: usize, const MAX_STREAMS: usize> Chan<BUFFER_SIZE, MAX_STREAMS> {
+    pub open spec fn wf(&self) -> bool {
+        &&& 1 <= MAX_STREAMS <= 0x7fff_ffff && 1 <= BUFFER_SIZE <= 0x4000_0000
+        &&& self.queues@.len() == MAX_STREAMS && self.eff@.len() == MAX_STREAMS
+        &&& forall|j: int| self.live@.contains(j) ==> 0 <= j < MAX_STREAMS
+    }
+    pub open spec fn fanned_out(&self, before: Seq<Seq<u64>>, v: u64) -> bool {
+        &&& self.queues@.len() == before.len()
+        &&& forall|j: int| 0 <= j < before.len() ==> (#[trigger] self.queues@[j]) == (if self.live@.contains(j) { before[j].push(v) } else { before[j] })
+    }
+    pub open spec fn blocking_held(&self) -> int { 0 }
+    /// `self.send_derived(&arc_item)`: THE CONTRACT units fanout_arc_* prove of its body (given room in every live listener's queue -- otherwise the
+    /// channel waits, which is excluded from C16 by the statement)
+    #[verifier::external_body]
+    pub fn send_derived(&mut self, arc_item: &ArcItem) -> (r: bool)
+        requires old(self).wf(),
+        ensures final(self).wf(), r, final(self).fanned_out(old(self).queues@, arc_item.value), final(self).live == old(self).live, final(self).cancels == old(self).cancels,
+                final(self).queues_resume == old(self).queues_resume, final(self).suspensions == old(self).suspensions, final(self).eff@.len() == old(self).eff@.len(),
+                forall|j: int| 0 <= j < MAX_STREAMS ==> (#[trigger] final(self).eff@[j]) >= old(self).eff@[j],
+                forall|j: int| old(self).live@.contains(j) && old(self).queues@[j].len() == 0 ==> (#[trigger] final(self).eff@[j]) > old(self).eff@[j],
+    { unimplemented!() }
+    #[verifier::external_body]
+    pub fn suspend_point_holding_nothing(&mut self)
+        requires old(self).wf(), old(self).blocking_held() == 0,
+        ensures final(self).wf(), final(self).live == old(self).live, final(self).eff == old(self).eff, final(self).cancels == old(self).cancels,
+                final(self).suspensions@ == old(self).suspensions@ + 1, final(self).queues_resume == final(self).queues,
+    { }
+    /// the listener's queue: ring consume_movable (C01 / C02) resp. crossbeam try_recv (ASSUMED bounded FIFO); the index bound is the obligation
+    #[verifier::external_body]
+    pub fn consume_from(&mut self, stream_id: u32) -> (r: Option<ArcItem>)
+        requires (stream_id as int) < MAX_STREAMS, old(self).queues@.len() == MAX_STREAMS,
+        ensures final(self).live == old(self).live, final(self).eff == old(self).eff, final(self).cancels == old(self).cancels, final(self).queues@.len() == old(self).queues@.len(),
+                forall|j: int| 0 <= j < MAX_STREAMS && j != stream_id ==> final(self).queues@[j] == old(self).queues@[j],
+                old(self).queues@[stream_id as int].len() > 0 ==> (r matches Some(a) && a.value == old(self).queues@[stream_id as int][0]) && final(self).queues@[stream_id as int] == old(self).queues@[stream_id as int].drop_first(),
+                old(self).queues@[stream_id as int].len() == 0 ==> r is None && final(self).queues@[stream_id as int] == old(self).queues@[stream_id as int],
+    { unimplemented!() }
+    /// crossbeam `receiver.try_recv()`: Disconnected cannot happen while the channel owns both ends (ASSUMED)
+    #[verifier::external_body]
+    pub fn try_recv_from(&mut self, stream_id: u32) -> (r: Result<ArcItem, TryRecvError>)
+        requires (stream_id as int) < MAX_STREAMS, old(self).queues@.len() == MAX_STREAMS,
+        ensures final(self).live == old(self).live, final(self).eff == old(self).eff, final(self).cancels == old(self).cancels, final(self).queues@.len() == old(self).queues@.len(),
+                forall|j: int| 0 <= j < MAX_STREAMS && j != stream_id ==> final(self).queues@[j] == old(self).queues@[j],
+                old(self).queues@[stream_id as int].len() > 0 ==> (r matches Ok(a) && a.value == old(self).queues@[stream_id as int][0]) && final(self).queues@[stream_id as int] == old(self).queues@[stream_id as int].drop_first(),
+                old(self).queues@[stream_id as int].len() == 0 ==> r == Err::<ArcItem, TryRecvError>(TryRecvError::Empty) && final(self).queues@[stream_id as int] == old(self).queues@[stream_id as int],
+    { unimplemented!() }
+    #[verifier::external_body]
+    pub fn cancel_stream(&mut self, stream_id: u32)
+        ensures final(self).cancels@ == old(self).cancels@.push(stream_id as int), final(self).live == old(self).live, final(self).queues == old(self).queues, final(self).eff == old(self).eff,
+    { }
+}
+"""
+
+R_ARC_NEW = Rule("R6-arc-new", r"\bArc::new\(item\)", "arc_new(item)", min=0, note="Arc::new -> shim (the shared payload)")
+SETTER_VALUE = Rule("R7-maybeuninit", r"let mut item = MaybeUninit::uninit\(\);\s*let item_ref = unsafe \{ &mut \*item\.as_mut_ptr\(\) \};\s*setter\(item_ref\)(\.await)?;\s*let item = unsafe \{ item\.assume_init\(\) \};",
+                    lambda m: ("self.suspend_point_holding_nothing(); " if m.group(1) else "") + "let item = setter.apply();", count=1,
+                    note="MaybeUninit slot + setter call -> Setter::apply (consumed: invoked exactly once); the async setter's .await is a suspension point with the C20 state assertion")
+COMMON_ARC = [R_RETRY, R_ARC_NEW, R_DISCARD]
+
+
+def unit_arc(kind, file, struct, consume_rule):
+    impl_p = r"ChannelProducer\s*<[^{]*?>\s*for\s+%s\s*<[^{]*(?=\{)" % struct
+    impl_c = r"ChannelConsumer\s*<[^{]*?>\s*for\s*%s\s*<[^{]*(?=\{)" % struct
+    container = "impl<const BUFFER_SIZE: usize, const MAX_STREAMS: usize> Chan<BUFFER_SIZE, MAX_STREAMS>"
+
+    def fn(name, impl=impl_p, **kw):
+        f = FnSpec(file, name, impl=impl, **kw)
+        f.container = container
+        return f
+
+    WAKE = "forall|j: int| old(self).live@.contains(j) && %s[j].len() == 0 ==> (#[trigger] final(self).eff@[j]) > old(self).eff@[j]"
+    fns = [
+        fn("send", props=["C03", "C04"],
+           sig="pub fn send(&mut self, item: u64) -> (r: RetryResult<u64>)", sig_anchor=r"fn send\(&self, item: ItemType\) -> keen_retry::RetryConsumerResult<\(\), ItemType, \(\)>",
+           rules=COMMON_ARC, requires="old(self).wf()",
+           ensures="final(self).wf(), r is Ok, final(self).fanned_out(old(self).queues@, item), final(self).live == old(self).live," + WAKE % "old(self).queues@"),
+        fn("send_with", props=["C03", "C04"],
+           sig="pub fn send_with(&mut self, setter: Setter) -> (r: RetryResult<Setter>)", sig_anchor=r"fn send_with<F: FnOnce\(&mut ItemType\)>\(&self, setter: F\)",
+           rules=COMMON_ARC + [SETTER_VALUE], requires="old(self).wf()",
+           ensures="final(self).wf(), r is Ok, final(self).fanned_out(old(self).queues@, setter.value@), final(self).live == old(self).live," + WAKE % "old(self).queues@"),
+        fn("send_with_async", props=["C03", "C20", "C04"],
+           sig="pub fn send_with_async(&mut self, setter: Setter) -> (r: RetryResult<Setter>)", sig_anchor=r"async fn send_with_async<F:",
+           rules=COMMON_ARC + [SETTER_VALUE], requires="old(self).wf()",
+           ensures="final(self).wf(), r is Ok, final(self).suspensions@ == old(self).suspensions@ + 1, final(self).fanned_out(final(self).queues_resume@, setter.value@), final(self).live == old(self).live,"
+                   + WAKE % "final(self).queues_resume@"),
+        fn("consume", impl=impl_c, props=["C03", "C02"],
+           sig="pub fn consume(&mut self, stream_id: u32) -> (r: Option<ArcItem>)", sig_anchor=r"fn consume\(&self, stream_id: u32\) -> Option<Arc<ItemType>>",
+           rules=[consume_rule, Rule("R6-cancel", r"\bself\.streams_manager\.cancel_stream\(", "self.cancel_stream(", min=0)],
+           requires="old(self).wf(), (stream_id as int) < MAX_STREAMS",
+           ensures="final(self).queues@.len() == old(self).queues@.len(), forall|j: int| 0 <= j < MAX_STREAMS && j != stream_id ==> final(self).queues@[j] == old(self).queues@[j],"
+                   "old(self).queues@[stream_id as int].len() > 0 ==> (r matches Some(a) && a.value == old(self).queues@[stream_id as int][0]) && final(self).queues@[stream_id as int] == old(self).queues@[stream_id as int].drop_first(),"
+                   "old(self).queues@[stream_id as int].len() == 0 ==> r is None && final(self).queues@[stream_id as int] == old(self).queues@[stream_id as int],"
+                   "final(self).cancels == old(self).cancels"),
+    ]
+    return Unit("multi_arc_" + kind, fns, spec=SPEC_ARC,
+                trusted=["send_derived: its contract is what unit fanout_arc_%s proves of its body" % kind,
+                         "consume_from / try_recv_from: the listener queue's contract (ring units + Kani; crossbeam: ASSUMED bounded FIFO whose both ends the channel owns)"],
+                assumptions=["these channels WAIT while a listener queue is full (documented upstream; excluded from C16 by the statement): send_derived's contract is stated for 'every live listener queue has room'",
+                             "S-model between suspension points; the listener set is fixed during a call (C03's statement)"])
+
+
+RING_CONSUME = Rule("R6-queue", r"let channel = unsafe \{ self\.channels\.get_unchecked\(stream_id as usize\) \};\s*channel\.consume_movable\(\)", "self.consume_from(stream_id)", count=1,
+                    note="unchecked queue lookup + consume_movable -> consume_from (index bound obligation)")
+XB_CONSUME = Rule("R6-receiver", r"let receiver = unsafe \{ self\.receivers\.get_unchecked\(stream_id as usize\) \};\s*match receiver\.try_recv\(\) \{", "match self.try_recv_from(stream_id) {", count=1,
+                  note="unchecked receiver lookup + try_recv -> try_recv_from (index bound obligation)")
+UNITS += [unit_arc("atomic", "src/multi/channels/arc/atomic.rs", "Atomic", RING_CONSUME),
+          unit_arc("full_sync", "src/multi/channels/arc/full_sync.rs", "FullSync", RING_CONSUME),
+          unit_arc("crossbeam", "src/multi/channels/arc/crossbeam.rs", "Crossbeam", XB_CONSUME)]
